@@ -89,10 +89,11 @@ def configs(tier, seed):
         dict(name="chain-arrays", T=[w2, v1], M=[ma2], SL=slices[1:2] + slices[3:4] + slices[5:6], HU=[],
              bounds=B(1, 1 if th else 0, 2, 1, fewhosts=True, kinds=["inj", "imp"] if th else ["inj"]), modes=["remote"] if th else []),
     ]
-    # values 0, 0.0 and false as definitions and as later modifications; a unit stated for a unit-less node
+    # values 0, 0.0, false and '' (since c241ef6) as definitions and as later modifications; a unit stated for a unit-less node
     zeros = dict(name="zeros",
-                 T=[a_f] + ([a_i] if th else []) + [tpl("n", "int", num(k + 1)), tpl("z", "bool", True), tpl("g.x", "float", num(0), u1)],
-                 M=[lit("float", num(0), u2), lit("float", num(0)), lit("int", num(0)), m_i, m_b],
+                 T=[a_f] + ([a_i] if th else []) + [tpl("n", "int", num(k + 1)), tpl("z", "bool", True), tpl("g.x", "float", num(0), u1),
+                                                          tpl("e", "str", chars(S1)), tpl("e", "str", [])],
+                 M=[lit("float", num(0), u2), lit("float", num(0)), lit("int", num(0)), m_i, m_b, lit("str", [])],
                  SL=[], HU=[u2], bounds=B(2, 2 if th else 1, 1, 1, fewhosts=True), modes=["base", "remote"] if th else [])
     # a custom unit of the file ($unit hm = 100 m): referenced node in [hm] and host in an ordinary unit, and vice versa
     custom = dict(name="custom-unit",
@@ -115,7 +116,8 @@ def active_devs():
     fs = [f for f in C.load_findings() if f["property"] == PID]
     open_ = {f.get("deviation") for f in fs if f["status"] == "open"}
     named = {f.get("deviation") for f in fs}
-    return [d for d in ALL_DEVS if d in open_ or d not in named]
+    off = set(filter(None, os.environ.get("VERIF_C17_DEVS_OFF", "").split(",")))   # trial of a proposed fix on a scratch copy
+    return [d for d in ALL_DEVS if (d in open_ or d not in named) and d not in off]
 
 
 def mc_module(T, M, SL, HU, bounds, modes, copy_on_parse, emit, devs=None):
